@@ -57,6 +57,9 @@ def driver_configs():
     # a crowded reference: more annotators x average unit length than the annotated span, so the shuffle sampler runs
     # out of room for separated pivots and takes its last-resort branch
     out.append({"sampler": "shuffle", "mode": "exact", "n": 2, "prec": None, "crowded": True})
+    # between fixing the seed and the computation the caller builds other dissimilarities - accepted ones and ones
+    # the library refuses (caught): none of that is part of the seeded stream (baseline: the same computation without)
+    out.append({"sampler": "stat", "mode": "exact", "n": 2, "prec": None, "pre": True})
     return out
 
 
@@ -70,6 +73,19 @@ def make_driver(dc, seed=5):
         from .. import sched
         sched.trace_containers(d)  # plain dict / list / set attributes of the shared dissimilarity become visible
         np.random.seed(seed)
+        if dc.get("pre"):
+            from sortedcontainers import SortedSet
+            builds = [lambda: pa.CombinedCategoricalDissimilarity(alpha=2.0, beta=0.5),
+                      lambda: pa.PositionalSporadicDissimilarity(delta_empty=0.5),
+                      lambda: pa.PrecomputedCategoricalDissimilarity(SortedSet(["p", "q"]), np.array([[0.5, 1.0], [0.25, 0.5]])),
+                      lambda: pa.OrdinalCategoricalDissimilarity(["p", "q", "r"]),
+                      lambda: pa.PrecomputedCategoricalDissimilarity(SortedSet(["p"]), np.array([[1.0]])),
+                      lambda: pa.LevenshteinCategoricalDissimilarity(["p", "qq"])]
+            for b in builds:
+                try:
+                    b()
+                except Exception:  # noqa - a refused dissimilarity is the caller's problem, not the seeded stream's
+                    pass
         if dc.get("big"):
             from ..universe import fam_staircase
             c = build_continuum(fam_staircase(*dc["big"]))
@@ -90,7 +106,7 @@ def make_driver(dc, seed=5):
 
 def baseline(dc):
     with serial_pool():
-        return make_driver(dc)()
+        return make_driver({k: v for k, v in dc.items() if k != "pre"})()
 
 
 def configs(tier):
@@ -98,7 +114,7 @@ def configs(tier):
     dcs = driver_configs()
     for i, dc in enumerate(dcs):
         for W in (1, 2, 3):
-            if dc.get("big") or dc.get("crowded"):
+            if dc.get("big") or dc.get("crowded") or dc.get("pre"):
                 if W != 2:
                     continue
                 bound = 1
